@@ -16,7 +16,7 @@ THEOREMS = [
 ]
 RULE = ("finite schedules with 0..400 actions at the same due time (counts aimed at the spin threshold: 99..103, 150, 202..205, 400), "
         "self-rescheduling chains at the current time of depth <=150, mixed with other due times, cancellations, repeated start() "
-        "(restart after drain) and advance_to, drain-and-restart rounds (queue emptied by start / advance_to / advance_by, more scheduled, run again), on TestScheduler, VirtualTimeScheduler and HistoricalScheduler (datetime clock), every run "
+        "(restart after drain) and advance_to, re-entrant advance_to/advance_by/start calls made by a running action with due actions queued behind it, drain-and-restart rounds (queue emptied by start / advance_to / advance_by, more scheduled, run again), on TestScheduler, VirtualTimeScheduler and HistoricalScheduler (datetime clock), every run "
         "under a watchdog; plus the C28 random scripts. Compared with the Lean model (log, clocks, outcomes). "
         "non-trivial = at least two actions share a due time and at least one action ran")
 ASSUMPTIONS = ["single-threaded use of the scheduler", "integer times",
@@ -124,6 +124,47 @@ def gen_drain_restart(rng, kind=None):
     return base(kind, c0, ops)
 
 
+def gen_reentrant(rng, kind=None):
+    """an action that calls advance_to(now) / advance_to(later) / advance_by(0) / advance_by(d) / start() / an out-of-range
+    advance_to it catches — on the scheduler that is running it — with more due actions queued behind it (same instant and
+    later): the guard returns at once and the outer run must still execute everything due"""
+    kind = kind or rng.choice(["test", "vts", "hist"])
+    unit = 500 if kind == "hist" else 1
+    c0 = unit * rng.choice([0, 0, 6])
+    at = c0 + unit * rng.choice([0, 2])
+    calls = [["advance_to", at, False], ["advance_to", at + unit * rng.choice([1, 7, 100]), False], ["advance_by", 0, False],
+             ["advance_by", unit * rng.choice([1, 4]), False], ["start"], ["advance_to", at - unit * rng.choice([1, 50]), True],
+             ["advance_by", -unit, True]]
+    steps = [rng.choice(calls) for _ in range(rng.choice([1, 1, 2, 3]))]
+    nid = 1
+    ops = []
+    first = rng.random() < 0.5
+    if not first:   # something already ran before the re-entrant action, at the same instant
+        ops.append(["sched", False, "abs", at, noop(nid)])
+        nid += 1
+    if rng.random() < 0.3:   # the re-entrant call sits in a recursively scheduled child
+        child = {"id": nid + 1, "steps": steps, "raise": None}
+        ops.append(["sched", False, "abs", at, {"id": nid, "steps": [["sched", "handed", "imm", 0, child]], "raise": None}])
+        nid += 2
+    else:
+        ops.append(["sched", False, "abs", at, {"id": nid, "steps": steps, "raise": None}])
+        nid += 1
+    for _ in range(rng.choice([1, 2, 5])):   # queued behind it
+        ops.append(["sched", False, "abs", at + unit * rng.choice([0, 0, 1, 3]), noop(nid)])
+        nid += 1
+    runner = rng.choice(["start", "advance_to", "advance_by"])
+    if runner == "start":
+        ops.append(["start"])
+    elif runner == "advance_to":
+        ops.append(["advance_to", at + unit * rng.choice([3, 4, 10])])
+    else:
+        ops.append(["advance_by", at - c0 + unit * rng.choice([3, 5])])
+    if rng.random() < 0.4:   # and the scheduler is usable afterwards
+        ops.append(["sched", False, "rel", unit, noop(nid)])
+        ops.append(rng.choice([["start"], ["advance_by", unit * 2]]))
+    return base(kind, c0, ops)
+
+
 def cases(rng, tier):
     kinds = ["test", "vts", "hist"]
     # the confirmed defect (DESIGN §6 #1), always first: 102 same-time actions on a datetime clock
@@ -141,6 +182,8 @@ def cases(rng, tier):
         yield C28.gen_multi_start(rng)
     for _ in range(fw.tier_scale(tier, 300, 3000)):
         yield gen_drain_restart(rng)
+    for _ in range(fw.tier_scale(tier, 300, 3000)):
+        yield gen_reentrant(rng)
 
 
 model_request = vc.model_request
@@ -240,4 +283,4 @@ LEVEL_TEXT = ("Lean: the loop of start()/advance_to() is a total function — ac
 LEVEL_NOTE = ("Model of the REPAIRED code (fix: C29_historical_spin_deadlock — `self.clock +=` -> `self._clock +=` in the spin branch of start()). The unfixed "
               "behaviour is kept as Cfg.spinDeadlock and proved to block on 102 same-time actions (C29.historical_spin_stuck, `decide`); on an unfixed tree the "
               "check reports VIOLATION with that replay. start_runs_all_uncancelled assumes no action calls stop() and start() returns normally (an exception "
-              "escaping an action leaves _is_enabled set, as written). Actions are finite trees: unbounded self-rescheduling is outside the property.")
+              "escaping an action leaves _is_enabled set, as written). Re-entrant advance_to/advance_by/start calls made by a running action are modelled as written (the entry guard returns at once, or raises out-of-range; nothing changes) — except after the same action has itself called stop(), where the real code would run a nested loop: not modelled, never generated. Actions are finite trees: unbounded self-rescheduling is outside the property.")
